@@ -198,7 +198,19 @@ def run_case(case):
                 res['evals'] += 1
                 bump('bases_parsed')
                 try:
-                    bb = parse_belief_base(text)
+                    if rng.random() < 0.2:
+                        # the same text through a file path (file-or-string detection)
+                        import os, tempfile
+                        fd, fp = tempfile.mkstemp(suffix='.cl', prefix='vfc10_')
+                        os.write(fd, text.encode())
+                        os.close(fd)
+                        try:
+                            bb = parse_belief_base(fp)
+                        finally:
+                            os.remove(fp)
+                        bump('bases_parsed_from_file_path')
+                    else:
+                        bb = parse_belief_base(text)
                 except Exception as e:
                     viol('parser:base:well-formed-base-rejected', text=text, error=str(e)[:150])
                     continue
